@@ -28,6 +28,7 @@ import (
 	"go/parser"
 	"go/token"
 	"go/types"
+	"io"
 	"math"
 	"os"
 	"path/filepath"
@@ -51,6 +52,8 @@ type c30Vec struct {
 	MaxDiv10 []int  `json:"maxdiv10"`
 	Safe     int    `json:"safe"`
 	MaxHex   int    `json:"maxhex"`
+	M        []int  `json:"m"`
+	Free     int    `json:"free"`
 }
 
 func c30Digits(d []int) string {
@@ -86,7 +89,7 @@ func c30ErrClass(err error) string {
 func TestVerifC30Vectors(t *testing.T) {
 	vfOpen(t)
 	evals, nontriv := 0, 0
-	ndec, nhex, nskip := 0, 0, 0
+	ndec, nhex, nhexw, nskip := 0, 0, 0, 0
 	otherWidth := "not evaluated"
 	vfEachLine(t, "", func(line []byte) {
 		var v c30Vec
@@ -124,6 +127,10 @@ func TestVerifC30Vectors(t *testing.T) {
 			if ndec%900 == 1 {
 				vfSample(vfRec{"kind": "dec", "in": string(c30Bytes(v.S)), "accept": v.OK, "value": c30Digits(v.Val)})
 			}
+		case "hexw":
+			nhexw++
+			nontriv++
+			c30HexWrite(v)
 		case "hex":
 			nhex++
 			nontriv++
@@ -138,7 +145,7 @@ func TestVerifC30Vectors(t *testing.T) {
 	if ndec == 0 || nhex == 0 {
 		vfInfra(fmt.Sprintf("no vectors for the native width %d (dec %d, hex %d)", strconv.IntSize, ndec, nhex))
 	}
-	vfStat(evals, nontriv, vfRec{"dec_vectors": ndec, "hex_vectors": nhex, "vectors_for_other_width_not_run": nskip,
+	vfStat(evals, nontriv, vfRec{"dec_vectors": ndec, "hex_vectors": nhex, "hex_write_alignment_vectors": nhexw, "vectors_for_other_width_not_run": nskip,
 		"native_int_bits": strconv.IntSize, "other_width_constants": otherWidth})
 	vfDone()
 }
@@ -459,4 +466,138 @@ func (c c30Importer) Import(path string) (*types.Package, error) {
 	}
 	p.MarkComplete()
 	return p, nil
+}
+
+// ---- write side: alignment of the bufio buffer x re-entrant writeHexInt (specs/data/HexWrite.tla) ----
+
+// c30ReentrantWriter is the underlying writer of the bufio.Writer under test. While a flush is
+// in progress it runs other writeHexInt calls (as another connection's chunk write would),
+// deterministically and on the same goroutine, so they draw from the same pool.
+type c30ReentrantWriter struct {
+	data   []byte
+	armed  bool
+	inside bool
+	other  func()
+}
+
+func (u *c30ReentrantWriter) Write(p []byte) (int, error) {
+	u.data = append(u.data, p...)
+	if u.armed && !u.inside && u.other != nil {
+		u.inside = true
+		u.other()
+		u.inside = false
+	}
+	return len(p), nil
+}
+
+func c30HexWrite(v c30Vec) {
+	want := c30Digits(v.Val)
+	n64, err := strconv.ParseInt(want, 16, 64)
+	m64, err2 := strconv.ParseInt(c30Digits(v.M), 16, 64)
+	if err != nil || err2 != nil {
+		vfInfra("bad hexw vector")
+		return
+	}
+	const size = 64
+	discard := bufio.NewWriterSize(io.Discard, size)
+	u := &c30ReentrantWriter{}
+	u.other = func() {
+		for r := 0; r < 3; r++ {
+			writeHexInt(discard, int(m64)) //nolint:errcheck
+			discard.Flush()                //nolint:errcheck
+		}
+	}
+	bw := bufio.NewWriterSize(u, size)
+	fill := size - v.Free
+	if fill < 0 {
+		fill = 0
+	}
+	bw.Write(bytes.Repeat([]byte{'x'}, fill)) //nolint:errcheck
+	u.armed = true
+	if err := writeHexInt(bw, int(n64)); err != nil {
+		vfInfra("writeHexInt: " + err.Error())
+		return
+	}
+	u.armed = false
+	bw.Flush() //nolint:errcheck
+	got := string(u.data[fill:])
+	if got != want {
+		vfViol(fmt.Sprintf("hexw:%s:free=%d:other=%s", want, v.Free, c30Digits(v.M)),
+			fmt.Sprintf("writeHexInt(0x%s) into a bufio.Writer with %d free bytes, while another writeHexInt(0x%s) runs during the flush: the underlying writer received %q, expected %q",
+				want, v.Free, c30Digits(v.M), got, want),
+			vfRec{"n": want, "free": v.Free, "other": c30Digits(v.M), "got": got})
+	}
+}
+
+// c30ChunkReader hands out the body in reads of a fixed size, which become the chunk sizes.
+type c30ChunkReader struct {
+	data []byte
+	step int
+}
+
+func (r *c30ChunkReader) Read(p []byte) (int, error) {
+	if len(r.data) == 0 {
+		return 0, io.EOF
+	}
+	n := r.step
+	if n > len(r.data) {
+		n = len(r.data)
+	}
+	if n > len(p) {
+		n = len(p)
+	}
+	copy(p, r.data[:n])
+	r.data = r.data[n:]
+	return n, nil
+}
+
+// TestVerifC30ChunkedAlignment: a chunked Response.Write whose header block ends at every
+// alignment relative to the bufio buffer, while another chunked response is written from
+// inside the underlying writer (as a second connection would); the bytes that reached the
+// wire must parse back to the same body.
+func TestVerifC30ChunkedAlignment(t *testing.T) {
+	vfOpen(t)
+	body := make([]byte, 3*0xabc)
+	for i := range body {
+		body[i] = byte('a' + i%26)
+	}
+	otherBody := bytes.Repeat([]byte("0123456789"), 0x123)
+	const size = 512
+	evals := 0
+	for pad := 0; pad < size+40; pad++ {
+		var other Response
+		discard := bufio.NewWriterSize(io.Discard, size)
+		u := &c30ReentrantWriter{armed: true}
+		u.other = func() {
+			other.Reset()
+			other.SetBodyStream(&c30ChunkReader{data: otherBody, step: 0x123}, -1)
+			other.Write(discard) //nolint:errcheck
+			discard.Flush()      //nolint:errcheck
+		}
+		var resp Response
+		resp.Header.Set("X-Pad", strings.Repeat("p", pad))
+		resp.SetBodyStream(&c30ChunkReader{data: body, step: 0xabc}, -1)
+		bw := bufio.NewWriterSize(u, size)
+		if err := resp.Write(bw); err != nil {
+			vfInfra("Response.Write: " + err.Error())
+			break
+		}
+		bw.Flush() //nolint:errcheck
+		evals++
+		var back Response
+		err := back.Read(bufio.NewReader(bytes.NewReader(u.data)))
+		if err != nil || !bytes.Equal(back.Body(), body) {
+			i := bytes.Index(u.data, []byte("\r\n\r\n"))
+			head := ""
+			if i >= 0 && i+4+12 <= len(u.data) {
+				head = string(u.data[i+4 : i+4+12])
+			}
+			vfViol(fmt.Sprintf("chunked-reentrant:pad=%d", pad),
+				fmt.Sprintf("chunked response (chunks of 0xabc bytes, header padding %d, bufio size %d) written while another chunked response is written during the flush: read back %d of %d body bytes, err %v; the body starts with %q",
+					pad, size, len(back.Body()), len(body), err, head),
+				vfRec{"pad": pad, "err": fmt.Sprint(err), "first_bytes_after_head": head})
+		}
+	}
+	vfStat(evals, evals, nil)
+	vfDone()
 }
